@@ -44,7 +44,7 @@ func (e *Engine) raceAccess(p *Value, write bool) { e.raceAccessKey(p, write) }
 
 func (e *Engine) raceAccessKey(key interface{}, write bool) {
 	me := e.sched.cur
-	if me == nil || me.daemon {
+	if me == nil || me.daemon || e.syncMapOp {
 		return
 	}
 	if e.epochs == nil {
